@@ -32,8 +32,20 @@ fn host_and_path(u: &str) -> (&'static str, String) {
 }
 
 fn run_loop(case: &Value) -> Vec<Value> {
+    // variant A: the rules answer at request time; variant B: the same graph with every rule triggered by a backend 404
+    // (the example says the backend answers 404): the chain is the same, only the moment of the decision differs
+    let (out, te_a) = run_loop_variant(case, false);
+    let (out_b, te_b) = run_loop_variant(case, true);
+    vec![json!({"ev": "loop", "g": case["g"], "domains": case["domains"], "maxh": case["maxh"], "start": case["start"], "method": case["method"], "out": out,
+                "out_b": out_b, "te": [te_a, te_b]})]
+}
+
+/// -> (the redirect chain explain reports, what test-examples says of the start URL as an example of its rule:
+///     "failed" / "passed" / "none" when the start URL has no rule)
+fn run_loop_variant(case: &Value, backend: bool) -> (Value, Value) {
     let config = RouterConfig::default();
     let mut rules: Vec<Rule> = Vec::new();
+    let start = s(case, "start");
     for (u, e) in case["g"].as_object().unwrap() {
         let code = e["code"].as_u64().unwrap();
         if code == 200 {
@@ -45,14 +57,26 @@ fn run_loop(case: &Value) -> Vec<Value> {
         let (shost, spath) = host_and_path(u);
         let same_host = (to.starts_with('/') || to.starts_with("@2")) && host_and_path(&to).0 == shost;
         let target = if spath == "/a" && same_host { host_and_path(&to).1 } else { abs(&to) };
-        rules.push(serde_json::from_value(json!({"id": format!("g{}", u), "rank": 0, "source": {"host": shost, "path": spath},
-            "status_code": code, "target": target})).unwrap());
+        let mut rj = json!({"id": format!("g{}", u), "rank": 0, "source": {"host": shost, "path": spath}, "status_code": code, "target": target});
+        if backend {
+            rj["source"]["response_status_codes"] = json!([404]);
+        }
+        if *u == start {
+            // the start URL is an example of its own rule (no unit expected: only the rule must apply, and the chain must be sound)
+            rj["examples"] = json!([{"url": abs(&start), "method": s(case, "method"), "headers": null, "ip_address": null,
+                                     "response_status_code": if backend { json!(404) } else { Value::Null }, "must_match": true, "unit_ids_applied": []}]);
+        }
+        rules.push(serde_json::from_value(rj).unwrap());
     }
-    let example = Example { url: abs(&s(case, "start")), method: Some(s(case, "method")), headers: None, datetime: None, ip_address: None,
-        response_status_code: None, must_match: true, unit_ids_applied: None };
+    let example = Example { url: abs(&start), method: Some(s(case, "method")), headers: None, datetime: None, ip_address: None,
+        response_status_code: if backend { Some(404) } else { None }, must_match: true, unit_ids_applied: None };
     let domains = if case["domains"].as_bool().unwrap_or(false) { vec!["example.com".to_string(), "two.example.com".to_string()] } else { vec![] };
+    let maxh = case["maxh"].as_u64().unwrap() as u8;
+    let te = TestExamplesOutput::create_result_without_project(TestExamplesInput { router_config: config.clone(), rules: rules.clone(), max_hops: maxh, project_domains: domains.clone() });
+    let tev = serde_json::to_value(&te).unwrap();
+    let te_word = if tev["example_count"].as_u64().unwrap_or(0) == 0 { "none" } else if tev["failure_count"].as_u64().unwrap_or(0) > 0 { "failed" } else { "passed" };
     // the redirect-chain analysis is reached through the explain analysis (its type is not exported)
-    let out = ExplainRequestOutput::create_result_without_project(ExplainRequestInput { router_config: config, example, rules, max_hops: case["maxh"].as_u64().unwrap() as u8, project_domains: domains });
+    let out = ExplainRequestOutput::create_result_without_project(ExplainRequestInput { router_config: config, example, rules, max_hops: maxh, project_domains: domains });
     let rl = match out { Ok(o) => serde_json::to_value(&o).unwrap()["redirection_loop"].clone(), Err(_) => json!("error") };
     // hop urls back to the atoms of the specification
     let mut rl = rl;
@@ -65,7 +89,7 @@ fn run_loop(case: &Value) -> Vec<Value> {
             });
         }
     }
-    vec![json!({"ev": "loop", "g": case["g"], "domains": case["domains"], "maxh": case["maxh"], "start": case["start"], "method": case["method"], "out": rl})]
+    (rl, json!(te_word))
 }
 
 // ---------------------------------------------------------------------------------------------
